@@ -123,7 +123,17 @@ def c18_3(ctx, ss):
         k = ckey(ff, None, "masses")
         # mass definitions
         got = {"FF_12_34": {}, "other": {}}
-        for d in [d for d in flow.defs if d.kind == "assign" and isinstance(d.value, ast.JoinedStr) and d.name.startswith("mass")]:
+        # roles: the two-element list indexed in the make_lineshape call holds the two mass-name locals, in order
+        ml_all = [c for c in pf.calls_in(lp) if isinstance(c.func, ast.Attribute) and c.func.attr == "make_lineshape"]
+        masses_name, mass_names = None, []
+        if ml_all and len(ml_all[0].args) == 2 and isinstance(ml_all[0].args[1], ast.Subscript) and isinstance(ml_all[0].args[1].value, ast.Name):
+            masses_name = ml_all[0].args[1].value.id
+            md = [d for d in flow.defs if d.name == masses_name and d.kind == "assign"]
+            if len(md) == 1 and isinstance(md[0].value, ast.List) and all(isinstance(e, ast.Name) for e in md[0].value.elts):
+                mass_names = [e.id for e in md[0].value.elts]
+        if len(mass_names) != 2:
+            raise AnchorMissing(f"{cls_}.make_linefactor: the [mass1, mass2] list handed to make_lineshape was not found")
+        for d in [d for d in flow.defs if d.kind == "assign" and isinstance(d.value, ast.JoinedStr) and d.name in mass_names]:
             conds = [(txt(e), pol) for kind, e, pol in guards.path_conditions(lp, d.stmt) if kind == "if"]
             branch = None
             if conds == [("self.decay_structure == DecayStructure.FF_12_34", True)]:
@@ -146,8 +156,7 @@ def c18_3(ctx, ss):
             else:
                 got[branch][d.name] = (tuple(idxs), consts)
         for branch, spec in MASS_SPEC.items():
-            names = sorted(got[branch])
-            seq = [got[branch][n][0] for n in names]
+            seq = [got[branch][n][0] for n in mass_names if n in got[branch]]
             kk = k + f" :: {branch}"
             if seq == spec:
                 ctx.holds("C18.3", kk, where(ff, lp), f"{cls_} [{branch}]: mass indices {seq}", len(seq))
@@ -160,9 +169,7 @@ def c18_3(ctx, ss):
                 and isinstance(inner[0].target, ast.Tuple):
             i_name, v_name = (e.id for e in inner[0].target.elts)
             ml = [c for c in pf.calls_in(inner[0]) if isinstance(c.func, ast.Attribute) and c.func.attr == "make_lineshape"]
-            masses_def = [d for d in flow.defs if d.name == "masses" and d.kind == "assign"]
-            okm = len(masses_def) == 1 and txt(masses_def[0].value) == "[mass1, mass2]"
-            okp = len(ml) == 1 and txt(ml[0].func.value) == v_name and len(ml[0].args) == 2 and txt(ml[0].args[0]) == pv and txt(ml[0].args[1]) == f"masses[{i_name}]" and okm
+            okp = len(ml) == 1 and txt(ml[0].func.value) == v_name and len(ml[0].args) == 2 and txt(ml[0].args[0]) == pv and txt(ml[0].args[1]) == f"{masses_name}[{i_name}]"
             apps = [c for c in pf.calls_in(inner[0]) if isinstance(c.func, ast.Attribute) and c.func.attr == "append"]
             okp = okp and len(apps) == 1 and not any(isinstance(x, (ast.If, ast.Break, ast.Continue)) for x in ast.walk(inner[0]))
         (ctx.holds if okp else ctx.violation)("C18.3", k + " :: pairing", where(ff, inner[0] if inner else lp),
@@ -176,12 +183,23 @@ def c18_3(ctx, ss):
         d = [d for d in flow.defs if d.kind == "assign" and d.value is not None and "join" in txt(d.value) and pv in txt(d.value)]
         ok = len(d) == 1 and txt(d[0].value) == f"', '.join(map(str, {pv}))"
         inner = [n for n in ast.walk(lp) if isinstance(n, ast.For) and n is not lp]
-        oki = len(inner) == 1 and txt(inner[0].iter) == "spin_factors" and txt(flow.expand(inner[0].iter)) == "self.spinfactors"
+        oki = len(inner) == 1 and txt(flow.expand(inner[0].iter)) == "self.spinfactors"
         (ctx.holds if ok and oki else ctx.violation)("C18.3", ckey(ff, None, "spin-permutation"), where(ff, lp),
                                                      f"{cls_}: every spin factor of the amplitude is emitted with the loop's permutation" if ok and oki
                                                      else f"{cls_}: spin factors are not emitted once per (permutation, spin factor) with that permutation's indices")
     vf, vflow = fn(ss, MDECAY, "ModelDecay.vertexes")
-    okv = sibling.skeleton(vf.node) == ["verts =", "for d in self.daughters", "  if d.is_vertex()", "    call verts.append", "    verts Add", "return"]
+    loops = [n for n in pf.walk_no_nested(vf.node) if isinstance(n, ast.For)]
+    okv = False
+    if len(loops) == 1 and txt(loops[0].iter) == "self.daughters" and isinstance(loops[0].target, ast.Name):
+        d = loops[0].target.id
+        apps = [c for c in pf.calls_in(loops[0]) if isinstance(c.func, ast.Attribute) and c.func.attr == "append" and txt(c.args[0]) == d]
+        augs = [a for a in ast.walk(loops[0]) if isinstance(a, ast.AugAssign) and txt(a.value) == f"{d}.vertexes"]
+        if len(apps) == 1 and len(augs) == 1:
+            c1 = [(txt(e), pol) for kind, e, pol in guards.path_conditions(loops[0], stmt_of(vf, apps[0])) if kind == "if"]
+            c2 = [(txt(e), pol) for kind, e, pol in guards.path_conditions(loops[0], augs[0]) if kind == "if"]
+            r = returns(vf)
+            okv = c1 == [(f"{d}.is_vertex()", True)] and c2 == c1 and txt(apps[0].func.value) == txt(augs[0].target) \
+                and len(r) == 1 and txt(r[0].value) == txt(augs[0].target) and not any(isinstance(x, (ast.Break, ast.Continue)) for x in ast.walk(loops[0]))
     (ctx.holds if okv else ctx.violation)("C18.3", ckey(vf, None, "vertexes"), where(vf, vf.node), "vertexes = every two-body sub-decay, depth first" if okv else "ModelDecay.vertexes changed shape")
 
 
@@ -237,7 +255,9 @@ def c18_4(ctx, ss):
         sd, sdflow = fn(ss, GOOFIT, f"{cls_}.spindetails")
         rs = returns(sd)
         tx = sorted(txt(r.value)[:40] for r in rs)
-        ok = len(rs) == 2 and any("'Dto{a}{b}_{a}toP1P2_{b}toP3P4'" in txt(r.value) for r in rs) and any("Dto{a}P1_{a}to{b}P2{wave}_{b}toP3P4" in txt(r.value) for r in rs)
+        def consts(v):
+            return ["".join(str(p.value) if isinstance(p, ast.Constant) else "{}" for p in js.values) for js in ast.walk(v) if isinstance(js, ast.JoinedStr)]
+        ok = len(rs) == 2 and any("'Dto{a}{b}_{a}toP1P2_{b}toP3P4'" in txt(r.value) for r in rs) and any("Dto{}P1_{}to{}P2{}_{}toP3P4" in consts(r.value) for r in rs)
         (ctx.holds if ok else ctx.violation)("C18.4", ckey(sd, None, "formats"), where(sd, sd.node),
                                              f"{cls_}.spindetails produces the two key formats" if ok else f"{cls_}.spindetails returns {tx}: keys of the spin-factor table can no longer be produced")
 
